@@ -568,10 +568,17 @@ def check_timestamp_forwarding(ix, rep):
             chain = [ast.unparse(e)]
             for _ in range(5):
                 if isinstance(e, ast.Name):
-                    ds = [st for st in ast.walk(f.node) if isinstance(st, ast.Assign) and len(st.targets) == 1 and isinstance(st.targets[0], ast.Name) and st.targets[0].id == e.id]
+                    ds = [st.value for st in ast.walk(f.node) if isinstance(st, ast.Assign) and len(st.targets) == 1 and isinstance(st.targets[0], ast.Name) and st.targets[0].id == e.id]
+                    # a, b = x, y : the component bound to the name
+                    for st in ast.walk(f.node):
+                        if isinstance(st, ast.Assign) and len(st.targets) == 1 and isinstance(st.targets[0], ast.Tuple) and isinstance(st.value, ast.Tuple) \
+                                and len(st.targets[0].elts) == len(st.value.elts):
+                            for t_, v_ in zip(st.targets[0].elts, st.value.elts):
+                                if isinstance(t_, ast.Name) and t_.id == e.id:
+                                    ds.append(v_)
                     if len(ds) != 1:
                         break
-                    e = ds[0].value
+                    e = ds[0]
                     chain.append(ast.unparse(e))
                 else:
                     break
